@@ -9,14 +9,16 @@ Local Open Scope N_scope.
 
 (* every byte to either scancode decoder, after any history (so the unimplemented!() arm of Set 1 and
    the three Set 2-only states are unreachable for it) *)
-Lemma inv1 : inv_C07 syn_set1 ScancodeSet1_hash (ScancodeSet1_mk DecodeState_Start) = true. Proof. vm_compute. reflexivity. Qed.
-Lemma inv2 : inv_C07 syn_set2 ScancodeSet2_hash (ScancodeSet2_mk DecodeState_Start) = true. Proof. vm_compute. reflexivity. Qed.
-Theorem C08_set1 : forall bs, Forall byte bs ->
-  exists s' os, run (scan_machine syn_set1) (ScancodeSet1_mk DecodeState_Start) bs = Ret (s', os).
-Proof. exact (C08_scancodes syn_set1 _ _ _ inv1). Qed.
-Theorem C08_set2 : forall bs, Forall byte bs ->
-  exists s' os, run (scan_machine syn_set2) (ScancodeSet2_mk DecodeState_Start) bs = Ret (s', os).
-Proof. exact (C08_scancodes syn_set2 _ _ _ inv2). Qed.
+Lemma inv1 : at_init syn_set1 false (fun s0 => inv_C07 syn_set1 ScancodeSet1_hash s0) = true. Proof. vm_compute. reflexivity. Qed.
+Lemma inv2 : at_init syn_set2 false (fun s0 => inv_C07 syn_set2 ScancodeSet2_hash s0) = true. Proof. vm_compute. reflexivity. Qed.
+Theorem C08_set1 : forall s0, sc_init syn_set1 = Ret s0 -> forall bs, Forall byte bs ->
+  exists s' os, run (scan_machine syn_set1) s0 bs = Ret (s', os).
+Proof. intros s0 Hi. pose proof inv1 as H. rewrite (at_init_elim _ _ _ _ s0 Hi) in H. exact (C08_scancodes syn_set1 _ _ _ H). Qed.
+Theorem C08_set2 : forall s0, sc_init syn_set2 = Ret s0 -> forall bs, Forall byte bs ->
+  exists s' os, run (scan_machine syn_set2) s0 bs = Ret (s', os).
+Proof. intros s0 Hi. pose proof inv2 as H. rewrite (at_init_elim _ _ _ _ s0 Hi) in H. exact (C08_scancodes syn_set2 _ _ _ H). Qed.
+Example scan_inits_exist : (exists s0, sc_init syn_set1 = Ret s0) /\ (exists s0, sc_init syn_set2 = Ret s0).
+Proof. split; eexists; reflexivity. Qed.
 
 (* every bit and clear, in every reachable state of the frame decoder: the counter never exceeds 10, so
    `num_bits += 1` and `<< num_bits` stay in range *)
